@@ -150,6 +150,8 @@ def shard(task):
       skipped += 1          # wall-clock budget used up: reported, and the run is not called exhaustive
       continue
     n += 1
+    if n % 25 == 0:
+      jax.clear_caches()      # every configuration compiles its own programs: keep a long-lived worker from growing without bound
     nc, cats = cfg['layout']
     try:
       conv, res, prior_trials = run_one(cfg, cfg.get('fori', True))
